@@ -4,6 +4,8 @@ CONSTANTS
   MaxDepth = 2
   MaxRoots = 1
   RootFilter = {"users", "allPets", "nestedType", "blogPost"}
+  FieldFilter = {}
+  MaxReval = 0
   Mut = "firstwins"
 SPECIFICATION Spec
 INVARIANTS RefOK
